@@ -1,5 +1,6 @@
 """C15 — parameters only ever hold values of their declared type; submit fails fast."""
 FUNCS = ["IntType.validate", "StrType.validate", "FloatType.validate", "BoolType.validate", "PathType.validate",
-         "AnyType.validate", "ArrayType.validate", "DictType.validate", "ObjectType.validate", "EnumType.validate"]
+         "AnyType.validate", "ArrayType.validate", "DictType.validate", "ObjectType.validate", "EnumType.validate", "ConfigInformation.set",
+         "ConfigInformation.validate", "ConfigInformation._validate_value"]
 LEVEL = "proof"
 TRUSTED = []
